@@ -18,15 +18,19 @@ LogOf(o)  == [m \in 1..Len(o) |-> Entry(o[m].e, o[m].i, o[m].k, o[m].hasmodel, o
 RECURSIVE AgentsTo(_, _)
 AgentsTo(g, j) == IF j = 0 THEN <<>> ELSE AgentsTo(g, j - 1) \o [k \in 1..g[j].n |-> <<j, k - 1>>]
 
+\* which module's classes a description asks for: entries without "module" (nomod 2 or 3) mean the documented default `__main__`
+Origin(o) == IF o.nomod \in {2, 3} THEN "main" ELSE "mod"
+
 TrDecode ==
     /\ Ev.op = "decode" /\ Ev.out = "ok" /\ UNCHANGED vars
     /\ LET d == DescOf(Ev.desc) IN
        /\ LogOf(Ev.log) = ExpectedLog(d)
        \* the resulting model: exactly the listed systems with their declared scheduling, exactly the listed agents
-       /\ {<<Ev.final.systems[i][1], Ev.final.systems[i][2], Ev.final.systems[i][3], Ev.final.systems[i][4], Ev.final.systems[i][5]>> :
-              i \in 1..Len(Ev.final.systems)}
-            = {<<Ev.desc.systems[i].id, Ev.desc.systems[i].prio, Ev.desc.systems[i].freq, Ev.desc.systems[i].start, Ev.desc.systems[i].end>> :
-              i \in 1..Len(Ev.desc.systems)}
+       \* (and built from the class of the module the entry names: `__main__` when it names none)
+       /\ {<<Ev.final.systems[i][1], Ev.final.systems[i][2], Ev.final.systems[i][3], Ev.final.systems[i][4], Ev.final.systems[i][5],
+             Ev.final.systems[i][6]>> : i \in 1..Len(Ev.final.systems)}
+            = {<<Ev.desc.systems[i].id, Ev.desc.systems[i].prio, Ev.desc.systems[i].freq, Ev.desc.systems[i].start, Ev.desc.systems[i].end,
+                 Origin(Ev.desc)>> : i \in 1..Len(Ev.desc.systems)}
        /\ Len(Ev.final.systems) = Len(Ev.desc.systems)
        \* timestep 0 of the decoded model: the listed systems that are in their window, by descending priority, ties in listing order
        /\ LET S  == Ev.desc.systems
@@ -38,6 +42,7 @@ TrDecode ==
              /\ \A k, n \in 1..Len(Ev.final.ran) : k < n =>
                    \E a, b \in El : S[a].id = Ev.final.ran[k] /\ S[b].id = Ev.final.ran[n] /\ Before(a, b)
        /\ [i \in 1..Len(Ev.final.agents) |-> <<Ev.final.agents[i][1], Ev.final.agents[i][2]>>] = AgentsTo(d.groups, Len(d.groups))
+       /\ \A i \in 1..Len(Ev.final.agents) : Ev.final.agents[i][3] = Origin(Ev.desc)
 
 TraceInit == /\ desc = [pre |-> FALSE, post |-> FALSE, systems |-> <<>>, groups |-> <<>>] /\ pc = <<"done", 0, "", 0>>
              /\ log = <<>> /\ nsys = 0 /\ nag = 0 /\ tid \in 1..Len(Traces) /\ l = 1 /\ dev = {}
